@@ -101,9 +101,33 @@ def tree_scenario(tier, idx):
     return base
 
 
+# ---- sessions of thousands of operations, unwound (almost) completely: a bounded or wrapping history shows here.
+# They are spread over the first chunks of the sweep so that they run in parallel from the start.
+DEEP = {"quick": 5, "thorough": 60}
+
+
+def deep_index(tier, idx):
+    k = idx - tree_size(tier)
+    return k // 25 if (k >= 0 and k % 25 == 0 and k // 25 < DEEP[tier]) else None
+
+
+def deep_case(rng):
+    scn = workloads.deep_scenario(rng)
+    d = scn["deep_depth"]
+    scn["prefix_steps"] = d
+    r = d - rng.range(0, 30) if rng.chance(70) else rng.range(1, 8)
+    scn["walk"] = [["rewind"]] * max(1, r) + [["step"]] * rng.range(0, 5) + gen_walk(rng, rng.range(0, 6))
+    scn["tail_cap"] = 30
+    scn["regime"] = "clean"
+    scn["faults"] = []
+    return scn
+
+
 def gen(rng, tier, idx):
     if idx < tree_size(tier):
         return tree_scenario(tier, idx)
+    if deep_index(tier, idx) is not None:
+        return deep_case(rng)
     scn = workloads.session_scenario(rng, purpose="rewind")
     n = rng.weighted([(3, rng.range(1, 8)), (5, rng.range(8, 30)), (2, rng.range(30, 60))])
     scn["walk"] = gen_walk(rng, n)
@@ -173,7 +197,7 @@ def plan(scn, ref, extra_tail=True):
             continue
         items.append(rendered)
     if extra_tail:
-        items += [["step"]] * (L + 2)
+        items += [["step"]] * min(L + 2, scn.get("tail_cap") or (L + 2))
     return items
 
 
@@ -233,7 +257,7 @@ def evaluate(ctx, scn):
     accepted_rewinds = 0
     prev_bb = None
     prev_wb = None
-    walk_len = len(items) - (ref.L + 2)
+    walk_len = len(items) - min(ref.L + 2, scn.get("tail_cap") or (ref.L + 2))
     trace = []
     # with a failing stdout the observers' output is cut: the black-box layer is blind, the white-box one is not
     sink_fault = any(f["kind"] == "SINK_ERR" for f in scn.get("faults", []))
@@ -319,7 +343,7 @@ def evaluate(ctx, scn):
         prev_bb = bb
         prev_wb = wb
     # the final outcome of continuing to the end
-    if clean and not tainted and run.normal():
+    if clean and not tainted and run.normal() and not (scn.get("tail_cap") and scn["tail_cap"] < ref.L + 2):
         if ref.finished and net != ref.L:
             ev.add(PROP, "continuation-outcome", "final-net", "session ended after net %d steps, the rewind-free session needs %d" % (net, ref.L))
     ev.nontrivial = accepted_rewinds > 0 and run.normal()
